@@ -251,10 +251,12 @@ pub fn split_file_into_chunks_by_size(f: VLines, chunks: u64) -> (r: Result<Vec<
                 else if i > 0 { assert(v1[i - 1] == v0[i - 1]); }
             }
         }
-        let pair_tmp: (u64, u64) = (
+        let tmp__1 = (
             chunk_end,
             chunk_end.max(chunk_start + chunk_size + chunk_size),
-        ); chunk_start = pair_tmp.0; chunk_end = pair_tmp.1;
+        );
+        chunk_start = tmp__1.0;
+        chunk_end = tmp__1.1;
         chunk_end = chunk_end.min(file_size);
 
         if chunk_start >= file_size {
